@@ -1,10 +1,381 @@
 //! implementation-side drivers of work package "misc" (see docs/AGENT_GUIDE.md)
+//!
+//! C18 (certificate hot-reload):
+//!   certgen <new|keypemhex> <serialhex> <cn> <not_before_off_s> <not_after_off_s>
+//!       -> `OK <keypemhex> <certpemhex>`   (test material; offsets relative to the wall clock)
+//!   cert <check_expiry 0|1> <nblobs> <hex|class>{nblobs} <op>...
+//!       a real `CertReloader` (watch_enabled = false) over two files in a fresh temp dir.
+//!       Blobs are referenced by index; `-` = file absent. Ops:
+//!         Wc:<i> Wk:<i>   write the certificate / key file (regular file, whole content)
+//!         Dc Dk           delete the file
+//!         N               CertReloader::new          NN:<c1>:<k>:<c2>  the same with explicit reads
+//!         R               reload()                   RR:<c1>:<k>:<c2>  the same with explicit reads
+//!         A               accept: snapshot get_acceptor() as connection j (server.rs `listen`)
+//!         H:<j>           TLS handshake of accepted connection j (with the snapshot taken then)
+//!         E               accept + handshake now, keep the session      P:<j>  ping over session j
+//!       "explicit reads": the certificate path is a FIFO that delivers <c1> to the first open; before the
+//!       reader sees EOF the path is atomically replaced by a regular file holding <c2> (or removed), so a
+//!       second open of the path observes <c2>. The key file holds <k>. This is an update of the
+//!       certificate file landing between the reads the code performs, made deterministic.
+//!       After N/NN/R/RR the driver observes: the leaf served by get_acceptor() in an in-memory handshake,
+//!       get_cert_info() (serial, subject), get_reload_count(), get_last_reload().
 #![allow(unused_imports, dead_code)]
 use crate::util::{hex, unhex};
+use anytls_rs::util::{AnyTlsError, CertReloader, CertReloaderConfig};
+use sha2::{Digest, Sha256};
+use std::path::{Path, PathBuf};
+use std::sync::Arc;
+use std::sync::atomic::{AtomicBool, Ordering};
+use std::time::{Duration, Instant, SystemTime};
+use tokio::io::{AsyncReadExt, AsyncWriteExt};
+use tokio_rustls::{TlsAcceptor, TlsConnector};
+
+// ------------------------------------------------------------------ test material
+fn certgen(args: &[&str]) -> String {
+    if args.len() != 5 {
+        return "BADCASE".into();
+    }
+    let kp = if args[0] == "new" {
+        rcgen::KeyPair::generate()
+    } else {
+        rcgen::KeyPair::from_pem(&String::from_utf8_lossy(&unhex(args[0])))
+    };
+    let kp = match kp {
+        Ok(k) => k,
+        Err(e) => return format!("ERR key {}", e).replace(' ', "_"),
+    };
+    let cn = args[2];
+    let mut p = match rcgen::CertificateParams::new(vec![cn.to_string(), "localhost".to_string()]) {
+        Ok(p) => p,
+        Err(e) => return format!("ERR params {}", e).replace(' ', "_"),
+    };
+    p.distinguished_name = rcgen::DistinguishedName::new();
+    p.distinguished_name.push(rcgen::DnType::CommonName, cn);
+    p.serial_number = Some(rcgen::SerialNumber::from_slice(&unhex(args[1])));
+    let nb: i64 = args[3].parse().unwrap();
+    let na: i64 = args[4].parse().unwrap();
+    let now = SystemTime::now();
+    let off = |o: i64| {
+        if o >= 0 {
+            now + Duration::from_secs(o as u64)
+        } else {
+            now - Duration::from_secs((-o) as u64)
+        }
+    };
+    p.not_before = off(nb).into();
+    p.not_after = off(na).into();
+    match p.self_signed(&kp) {
+        Ok(c) => format!("OK {} {}", hex(kp.serialize_pem().as_bytes()), hex(c.pem().as_bytes())),
+        Err(e) => format!("ERR sign {}", e).replace(' ', "_"),
+    }
+}
+
+// ------------------------------------------------------------------ TLS client that accepts anything
+#[derive(Debug)]
+struct AcceptAny;
+impl rustls::client::danger::ServerCertVerifier for AcceptAny {
+    fn verify_server_cert(
+        &self,
+        _e: &rustls::pki_types::CertificateDer<'_>,
+        _i: &[rustls::pki_types::CertificateDer<'_>],
+        _n: &rustls::pki_types::ServerName<'_>,
+        _o: &[u8],
+        _t: rustls::pki_types::UnixTime,
+    ) -> Result<rustls::client::danger::ServerCertVerified, rustls::Error> {
+        Ok(rustls::client::danger::ServerCertVerified::assertion())
+    }
+    fn verify_tls12_signature(
+        &self,
+        _m: &[u8],
+        _c: &rustls::pki_types::CertificateDer<'_>,
+        _d: &rustls::DigitallySignedStruct,
+    ) -> Result<rustls::client::danger::HandshakeSignatureValid, rustls::Error> {
+        Ok(rustls::client::danger::HandshakeSignatureValid::assertion())
+    }
+    fn verify_tls13_signature(
+        &self,
+        _m: &[u8],
+        _c: &rustls::pki_types::CertificateDer<'_>,
+        _d: &rustls::DigitallySignedStruct,
+    ) -> Result<rustls::client::danger::HandshakeSignatureValid, rustls::Error> {
+        Ok(rustls::client::danger::HandshakeSignatureValid::assertion())
+    }
+    fn supported_verify_schemes(&self) -> Vec<rustls::SignatureScheme> {
+        use rustls::SignatureScheme::*;
+        vec![
+            RSA_PKCS1_SHA256,
+            RSA_PKCS1_SHA384,
+            RSA_PKCS1_SHA512,
+            ECDSA_NISTP256_SHA256,
+            ECDSA_NISTP384_SHA384,
+            ECDSA_NISTP521_SHA512,
+            RSA_PSS_SHA256,
+            RSA_PSS_SHA384,
+            RSA_PSS_SHA512,
+            ED25519,
+        ]
+    }
+}
+
+fn client_config() -> Arc<rustls::ClientConfig> {
+    let mut c = rustls::ClientConfig::builder()
+        .with_root_certificates(rustls::RootCertStore::empty())
+        .with_no_client_auth();
+    c.dangerous().set_certificate_verifier(Arc::new(AcceptAny));
+    Arc::new(c)
+}
+
+type CliStream = tokio_rustls::client::TlsStream<tokio::io::DuplexStream>;
+type SrvStream = tokio_rustls::server::TlsStream<tokio::io::DuplexStream>;
+
+fn fp(der: &[u8]) -> String {
+    let d = Sha256::digest(der);
+    hex(&d[..8])
+}
+
+/// in-memory handshake against `acc`; returns the fingerprint of the leaf the client received
+fn handshake(rt: &tokio::runtime::Runtime, acc: &Arc<TlsAcceptor>) -> Option<(String, CliStream, SrvStream)> {
+    let acc = acc.clone();
+    rt.block_on(async move {
+        let (a, b) = tokio::io::duplex(1 << 16);
+        let conn = TlsConnector::from(client_config());
+        let name = rustls::pki_types::ServerName::try_from("localhost").unwrap();
+        let (c, s) = tokio::join!(conn.connect(name, a), acc.accept(b));
+        let (c, s) = (c.ok()?, s.ok()?);
+        let leaf = c.get_ref().1.peer_certificates()?.first()?.clone();
+        Some((fp(leaf.as_ref()), c, s))
+    })
+}
+
+fn ping(rt: &tokio::runtime::Runtime, c: &mut CliStream, s: &mut SrvStream) -> Option<String> {
+    rt.block_on(async {
+        c.write_all(b"ping").await.ok()?;
+        c.flush().await.ok()?;
+        let mut buf = [0u8; 4];
+        s.read_exact(&mut buf).await.ok()?;
+        s.write_all(&buf).await.ok()?;
+        s.flush().await.ok()?;
+        let mut back = [0u8; 4];
+        c.read_exact(&mut back).await.ok()?;
+        if &back != b"ping" {
+            return None;
+        }
+        let leaf = c.get_ref().1.peer_certificates()?.first()?.clone();
+        Some(fp(leaf.as_ref()))
+    })
+}
+
+fn err_class(e: &AnyTlsError) -> &'static str {
+    match e {
+        AnyTlsError::Io(_) => "io",
+        AnyTlsError::Tls(_) => "tls",
+        _ => "other",
+    }
+}
+
+// ------------------------------------------------------------------ the two files
+struct Disk {
+    dir: tempfile::TempDir,
+    cert: PathBuf,
+    key: PathBuf,
+    blobs: Vec<Vec<u8>>,
+}
+
+impl Disk {
+    fn blob(&self, tok: &str) -> Option<&[u8]> {
+        if tok == "-" {
+            None
+        } else {
+            Some(&self.blobs[tok.parse::<usize>().expect("blob index")])
+        }
+    }
+    fn put(&self, path: &Path, tok: &str) {
+        let _ = std::fs::remove_file(path);
+        if let Some(b) = self.blob(tok) {
+            std::fs::write(path, b).unwrap();
+        }
+    }
+    /// run `f` while the certificate path delivers c1 to the first open and c2 to any later open
+    fn with_reads<T>(&self, c1: &str, k: &str, c2: &str, f: impl FnOnce() -> T) -> T {
+        self.put(&self.key, k);
+        let first = match self.blob(c1) {
+            None => {
+                // absent at the first read: nothing is read a second time on any path of the code
+                let _ = std::fs::remove_file(&self.cert);
+                let r = f();
+                self.put(&self.cert, c2);
+                return r;
+            }
+            Some(b) => b.to_vec(),
+        };
+        let _ = std::fs::remove_file(&self.cert);
+        let st = std::process::Command::new("mkfifo").arg(&self.cert).status().expect("mkfifo");
+        assert!(st.success(), "mkfifo failed");
+        let next = self.dir.path().join("cert.next");
+        let second = self.blob(c2).map(|b| b.to_vec());
+        if let Some(b) = &second {
+            std::fs::write(&next, b).unwrap();
+        }
+        let cert = self.cert.clone();
+        let served = Arc::new(AtomicBool::new(false));
+        let served2 = served.clone();
+        let has_second = second.is_some();
+        let th = std::thread::spawn(move || {
+            use std::io::Write;
+            // blocks until the code under test opens the certificate path for reading
+            let mut w = std::fs::OpenOptions::new().write(true).open(&cert).unwrap();
+            w.write_all(&first).unwrap();
+            // switch the path before the reader can see EOF
+            if has_second {
+                std::fs::rename(&next, &cert).unwrap();
+            } else {
+                std::fs::remove_file(&cert).unwrap();
+            }
+            served2.store(true, Ordering::SeqCst);
+            drop(w);
+        });
+        let r = f();
+        if !served.load(Ordering::SeqCst) && !th.is_finished() {
+            // the code never opened the certificate path: release the writer
+            if let Ok(_rw) = std::fs::OpenOptions::new().read(true).write(true).open(&self.cert) {
+                let _ = th.join();
+            }
+        } else {
+            let _ = th.join();
+        }
+        // final on-disk state: c2
+        self.put(&self.cert, c2);
+        r
+    }
+}
+
+fn cert(args: &[&str]) -> String {
+    if args.len() < 2 {
+        return "BADCASE".into();
+    }
+    let check_expiry = args[0] == "1";
+    let nblobs: usize = args[1].parse().unwrap();
+    let blobs: Vec<Vec<u8>> = args[2..2 + nblobs].iter().map(|t| unhex(t.split('|').next().unwrap())).collect();
+    let ops = &args[2 + nblobs..];
+    let dir = tempfile::tempdir().expect("tempdir");
+    let disk = Disk { cert: dir.path().join("cert.pem"), key: dir.path().join("key.pem"), dir, blobs };
+    let rt = tokio::runtime::Builder::new_current_thread().enable_all().build().unwrap();
+    let cfg = CertReloaderConfig {
+        cert_path: disk.cert.clone(),
+        key_path: disk.key.clone(),
+        watch_enabled: false,
+        debounce_ms: 500,
+        check_expiry,
+        expiry_warning_days: 30,
+    };
+    let mut rel: Option<CertReloader> = None;
+    let mut last_seen: Option<Instant> = None;
+    let mut last_step: Option<usize> = None;
+    let mut conns: Vec<Arc<TlsAcceptor>> = Vec::new();
+    let mut sessions: Vec<(CliStream, SrvStream)> = Vec::new();
+    let mut out: Vec<String> = Vec::new();
+
+    let observe = |rel: &CertReloader, step: usize, last_seen: &mut Option<Instant>, last_step: &mut Option<usize>| -> String {
+        let leaf = match handshake(&rt, &rel.get_acceptor()) {
+            Some((f, _, _)) => f,
+            None => "fail".to_string(),
+        };
+        let info = match rel.get_cert_info() {
+            Some(i) => format!("{}/{}", i.serial_number.replace(':', ""), i.subject.replace(' ', "_")),
+            None => "none".to_string(),
+        };
+        let l = rel.get_last_reload();
+        if l != *last_seen {
+            *last_seen = l;
+            *last_step = Some(step);
+        }
+        let last = match (l, *last_step) {
+            (None, _) => "none".to_string(),
+            (Some(_), Some(s)) => s.to_string(),
+            (Some(_), None) => "?".to_string(),
+        };
+        format!("[leaf={} info={} cnt={} last={}]", leaf, info, rel.get_reload_count(), last)
+    };
+
+    for (step, op) in ops.iter().enumerate() {
+        let parts: Vec<&str> = op.split(':').collect();
+        match parts[0] {
+            "Wc" => disk.put(&disk.cert, parts[1]),
+            "Wk" => disk.put(&disk.key, parts[1]),
+            "Dc" => disk.put(&disk.cert, "-"),
+            "Dk" => disk.put(&disk.key, "-"),
+            "N" | "NN" => {
+                let r = if parts[0] == "N" {
+                    CertReloader::new(cfg.clone())
+                } else {
+                    disk.with_reads(parts[1], parts[2], parts[3], || CertReloader::new(cfg.clone()))
+                };
+                match r {
+                    Ok(r) => {
+                        last_seen = None;
+                        last_step = None;
+                        out.push(format!("new=ok {}", observe(&r, step, &mut last_seen, &mut last_step)));
+                        rel = Some(r);
+                    }
+                    Err(e) => out.push(format!("new=err:{}", err_class(&e))),
+                }
+            }
+            "R" | "RR" => match &rel {
+                None => out.push("r=noreloader".into()),
+                Some(r) => {
+                    let res = if parts[0] == "R" {
+                        r.reload()
+                    } else {
+                        disk.with_reads(parts[1], parts[2], parts[3], || r.reload())
+                    };
+                    let s = match res {
+                        Ok(()) => "ok".to_string(),
+                        Err(e) => format!("err:{}", err_class(&e)),
+                    };
+                    out.push(format!("r={} {}", s, observe(r, step, &mut last_seen, &mut last_step)));
+                }
+            },
+            "A" => match &rel {
+                None => out.push("a=noreloader".into()),
+                Some(r) => {
+                    conns.push(r.get_acceptor());
+                    out.push(format!("a={}", conns.len() - 1));
+                }
+            },
+            "H" => {
+                let j: usize = parts[1].parse().unwrap();
+                match conns.get(j) {
+                    None => out.push("h=noconn".into()),
+                    Some(a) => out.push(format!("h={}", handshake(&rt, a).map(|x| x.0).unwrap_or_else(|| "fail".into()))),
+                }
+            }
+            "E" => match &rel {
+                None => out.push("e=noreloader".into()),
+                Some(r) => match handshake(&rt, &r.get_acceptor()) {
+                    Some((f, c, s)) => {
+                        sessions.push((c, s));
+                        out.push(format!("e={}:{}", sessions.len() - 1, f));
+                    }
+                    None => out.push("e=fail".into()),
+                },
+            },
+            "P" => {
+                let j: usize = parts[1].parse().unwrap();
+                match sessions.get_mut(j) {
+                    None => out.push("p=nosession".into()),
+                    Some((c, s)) => out.push(format!("p={}", ping(&rt, c, s).unwrap_or_else(|| "fail".into()))),
+                }
+            }
+            _ => out.push("BADOP".into()),
+        }
+    }
+    out.join(" ")
+}
 
 pub fn dispatch(drv: &str, args: &[&str]) -> Option<String> {
-    let _ = args;
     match drv {
+        "certgen" => Some(certgen(args)),
+        "cert" => Some(cert(args)),
         _ => None,
     }
 }
